@@ -111,3 +111,35 @@ def run(chk):
             chk.violation(f"the Paint tree of a document with nested opacity groups is not the document's tree: got {got}, "
                           f"the document is {want}", replay)
     chk.notes["painted_layers_documents"] = {"replayed": len(docs), "three_levels": nested}
+
+
+def end_to_end(chk, formats, judge, n_quick=36):
+    """The same documents through the whole pipeline in `formats`; judge(chk, font, cfg, srcs, ctx, replay) compares the
+    built font with the source (C01: COLR layer oracle, C02: OT-SVG document oracle)."""
+    quick = chk.tier == "quick"
+    res = common.run_tlc("PaintedLayers", "PaintedLayers.cfg" if quick else "PaintedLayers_full.cfg", timeout=1800, coverage=False)
+    if not res.ok:
+        raise MachineryError("PaintedLayers model fails (reported by C01)")
+    docs = [r["doc"] for r in res.records]
+    docs.sort(key=lambda d: (-max(nd["d"] for nd in d), json.dumps(d)))     # deepest nesting first
+    r = common.rng(chk.pid, "painted-e2e")
+    if quick:
+        deep = [d for d in docs if max(nd["d"] for nd in d) >= 3]
+        r.shuffle(deep)
+        docs = deep[:n_quick]
+    for k, doc in enumerate(docs):
+        fmt = formats[k % len(formats)]
+        tol = 0.1 if k % 2 else -1.0
+        cfgkw = dict(color_format=fmt, keep_glyph_names=True, reuse_tolerance=tol, clip_to_viewbox=False)
+        cfg = build.base_config(**cfgkw)
+        text = build.to_picosvg(_svg_of(doc)).tostring()
+        srcs = [build.Src("emoji_u1f600.svg", text)]
+        replay = {"kind": "painted-layers end to end", "doc": doc, "config": {a: str(b) for a, b in cfgkw.items()}, "svgs": [text]}
+        chk.case(key=("painted-e2e", fmt, json.dumps(doc)), nontrivial=True)
+        chk.traces_validated += 1
+        try:
+            _, font = build.build(cfg, srcs, already_pico=True)
+        except Exception as e:
+            chk.violation(f"valid source with nested opacity groups fails to build ({fmt}): {type(e).__name__}: {str(e)[:200]}", replay)
+            continue
+        judge(chk, font, cfg, srcs, f"document tree {k} [{fmt}]", replay)
